@@ -187,6 +187,15 @@ impl Prop for C14 {
 		if w >= ex.world.wallets.len() {
 			return OpRes::Skipped("unavailable".into());
 		}
+		if name == "open_wrong" {
+			// an attempt to open the closed wallet with a wrong password: it fails, and the
+			// wallet stays closed
+			let pw = format!("{}-wrong", ex.world.wallets[w].password);
+			return match ex.world.owner(w).open_wallet(None, grin_util::ZeroingString::from(pw.as_str()), true) {
+				Ok(_) => OpRes::Ok { new_msg: None, note: "opened with a wrong password".into(), validated: None, new_wallet: None },
+				Err(e) => OpRes::Err(format!("{}", e)),
+			};
+		}
 		if name == "close" {
 			if !ex.world.is_open(w) {
 				return OpRes::Skipped("closed".into());
@@ -338,13 +347,16 @@ impl Prop for C14 {
 		if let Some(w) = self.closed_by_script {
 			// after close: a few calls with the (formerly) right token, then reopen
 			if run.rng.chance(1, 4) {
-				self.closed_by_script = None;
 				return Some(Step::new(Op::Restart { w }));
+			}
+			if run.rng.chance(1, 5) {
+				run.cov.probe("failed_open_attempt_on_a_closed_wallet");
+				return Some(Step::new(Op::Custom { name: "open_wrong".into(), args: json!({"w": w}) }));
 			}
 			let all: Vec<&str> = MUST_FAIL.iter().chain(READ_ONLY.iter()).cloned().collect();
 			return Some(Step::new(Op::Custom {
 				name: "token_call".into(),
-				args: json!({"w": w, "method": *run.rng.pick(&all), "token": "right", "seed": run.rng.below(1 << 30)}),
+				args: json!({"w": w, "method": *run.rng.pick(&all), "token": *run.rng.pick(&["right", "right", "absent"]), "seed": run.rng.below(1 << 30)}),
 			}));
 		}
 		if self.gen.setup_done && !run.ex.world.wallets.is_empty() {
@@ -370,7 +382,6 @@ impl Prop for C14 {
 			}
 			if run.rng.chance(1, 30) {
 				let w = run.rng.idx(nw);
-				self.closed_by_script = Some(w);
 				return Some(Step::new(Op::Custom { name: "close".into(), args: json!({"w": w}) }));
 			}
 		}
@@ -399,6 +410,17 @@ impl Prop for C14 {
 		let mut v = vec![];
 		self.gen.feedback(run, step, out);
 		self.note_tokens(run);
+		// whether the script has closed a wallet is a fact of the trace (a replay does not
+		// run the generator): close_wallet succeeded and no reopen since
+		match &step.op {
+			Op::Custom { name, args } if name == "close" && out.ok => {
+				self.closed_by_script = Some(args["w"].as_u64().unwrap_or(0) as usize);
+			}
+			Op::Restart { w } if self.closed_by_script == Some(*w) => {
+				self.closed_by_script = None;
+			}
+			_ => {}
+		}
 		if let Op::Custom { name, args } = &step.op {
 			if name == "token_call" && !out.skipped {
 				let (w, dig0) = match self.pre.take() {
